@@ -8,7 +8,8 @@ PROP = {
                                "SwimVerif.Proofs.AssocKeys", "SwimVerif.Proofs.EpochQueue",
                                "SwimVerif.Proofs.EpochQueueInv", "SwimVerif.Proofs.EpochQueueRun",
                                "SwimVerif.Proofs.EpochQueueCompose", "SwimVerif.Proofs.MapLaneTakeDrop",
-                               "SwimVerif.Proofs.MapQueueSampled", "SwimVerif.Proofs.MapCompose"],
+                               "SwimVerif.Proofs.MapQueueSampled", "SwimVerif.Proofs.MapCompose",
+                               "SwimVerif.Proofs.MapLaneAgent"],
     "engines": [
         e2e_engine("C02"),
         wt_engine("C02"),
@@ -33,9 +34,10 @@ PROP = {
                   "every run); the real MapLane (BTreeMap backing: "
                   "update/remove/clear/take/drop/sync/write_to_buffer) and the real uplink map path are tied by "
                   "differential execution; monitors check replica convergence at quiescence.",
-    "level_note": "No open statements. The composition theorem is at specification level (AgentQ + MQSys); the link "
-                  "from the lane model's WriteQueues/popFrame loop (with sync queues) to AgentQ is by differential "
-                  "execution and monitor, not a theorem. Recon key "
+    "level_note": "No open statements. The lane model (sorted map, indexed event queue, WriteQueues alternation with "
+                  "sync requests, vanished-key loop, take/drop) is proved to refine the specification agent and to "
+                  "converge; the composition agent queue + runtime queue is proved at specification level, the "
+                  "runtime side of it is tied to the Uplinks model by differential execution. Recon key "
                   "equality is represented by key classes validated against compare_recon_values at harness start.",
     "trusted_base": COMMON_TRUST + WT_TRUST + E2E_TRUST,
     "assumptions": ["queues hold fewer than 2^64 entries", "Ord on keys agrees with the Recon order (take/drop)"],
